@@ -821,8 +821,27 @@ impl Paragraph {
         }
     }
 
+    /// Terminate the last line of the paragraph, so that an appended entry starts on its own line.
+    fn ensure_trailing_newline(&self) {
+        if let Some(last) = self.0.last_token() {
+            if last.kind() != NEWLINE {
+                let mut builder = GreenNodeBuilder::new();
+                builder.start_node(ENTRY.into());
+                builder.token(NEWLINE.into(), "\n");
+                builder.finish_node();
+                let newline = SyntaxNode::new_root_mut(builder.finish())
+                    .first_token()
+                    .unwrap();
+                let parent = last.parent().unwrap();
+                let count = parent.children_with_tokens().count();
+                parent.splice_children(count..count, vec![newline.into()]);
+            }
+        }
+    }
+
     /// Insert a new field
     pub fn insert(&mut self, key: &str, value: &str) {
+        self.ensure_trailing_newline();
         let entry = Entry::new(key, value);
         let count = self.0.children_with_tokens().count();
         self.0.splice_children(count..count, vec![entry.0.into()]);
@@ -841,6 +860,7 @@ impl Paragraph {
                 return;
             }
         }
+        self.ensure_trailing_newline();
         let count = self.0.children_with_tokens().count();
         self.0
             .splice_children(count..count, vec![new_entry.0.into()]);
